@@ -13,45 +13,224 @@ import (
 	"golang.org/x/tools/go/ssa"
 )
 
-// findEscaper locates soyhtml's own HTML escaper: the function with an
-// io.Writer parameter whose body switches on a byte of its string parameter
-// with a case for '<'.
-func findEscaper(c *Ctx) (*ast.FuncDecl, *ast.SwitchStmt) {
+// escModel is soyhtml's own HTML escaper read as a table, whichever way it is written: a switch over a
+// byte of the input with one arm per special character (replacement assigned in the arm, default arm skips),
+// or a package-level table indexed by that byte (nil / absent entry skips).
+type escEntry struct {
+	repl  string
+	found bool
+	pos   token.Pos
+}
+type escModel struct {
+	node         ast.Node // the switch, or the statement that reads the table: lies inside the scan loop
+	at           token.Pos
+	entries      map[rune]escEntry
+	hasDefault   bool
+	defaultSkips bool
+	defaultPos   token.Pos
+}
+
+func (m *escModel) Pos() token.Pos { return m.at }
+func (m *escModel) specials() string {
+	var rs []rune
+	for ch := range m.entries {
+		rs = append(rs, ch)
+	}
+	sort.Slice(rs, func(i, j int) bool { return rs[i] < rs[j] })
+	return string(rs)
+}
+
+// findEscaper locates the escaper: the function with an io.Writer parameter that replaces '<' (switch arm
+// or table entry).
+func findEscaper(c *Ctx) (*ast.FuncDecl, *escModel) {
 	p := c.pkg("soyhtml")
 	if p == nil {
 		return nil, nil
 	}
+	info := p.TypesInfo
 	for _, fd := range c.allFuncDecls("soyhtml") {
 		hasWriter := false
 		for _, f := range fd.Type.Params.List {
-			if tv, ok := p.TypesInfo.Types[f.Type]; ok && isIOWriter(tv.Type) {
+			if tv, ok := info.Types[f.Type]; ok && isIOWriter(tv.Type) {
 				hasWriter = true
 			}
 		}
-		if !hasWriter {
+		if !hasWriter || fd.Body == nil {
 			continue
 		}
-		var sw *ast.SwitchStmt
+		var m *escModel
 		ast.Inspect(fd.Body, func(x ast.Node) bool {
-			if s, ok := x.(*ast.SwitchStmt); ok && s.Tag != nil {
+			if m != nil {
+				return false
+			}
+			switch s := x.(type) {
+			case *ast.SwitchStmt:
+				if s.Tag == nil {
+					return true
+				}
+				cand := &escModel{node: s, at: s.Pos(), entries: map[rune]escEntry{}}
 				for _, cs := range s.Body.List {
-					for _, e := range cs.(*ast.CaseClause).List {
-						if tv, ok := p.TypesInfo.Types[e]; ok && tv.Value != nil && tv.Value.Kind() == constant.Int {
-							if v, _ := constant.Int64Val(tv.Value); v == '<' {
-								sw = s
+					cc := cs.(*ast.CaseClause)
+					if cc.List == nil {
+						cand.hasDefault, cand.defaultPos = true, cc.Pos()
+						if len(cc.Body) == 1 {
+							if br, ok := cc.Body[0].(*ast.BranchStmt); ok && br.Tok == token.CONTINUE {
+								cand.defaultSkips = true
 							}
+						}
+						continue
+					}
+					for _, e := range cc.List {
+						tv, ok := info.Types[e]
+						if !ok || tv.Value == nil || tv.Value.Kind() != constant.Int {
+							continue
+						}
+						v, _ := constant.Int64Val(tv.Value)
+						ent := escEntry{pos: cc.Pos()}
+						for _, st := range cc.Body {
+							if as, ok := st.(*ast.AssignStmt); ok && len(as.Rhs) == 1 {
+								ent.repl, ent.found = constBytes(c, info, as.Rhs[0])
+							}
+						}
+						cand.entries[rune(v)] = ent
+					}
+				}
+				if _, ok := cand.entries['<']; ok {
+					m = cand
+				}
+			case *ast.AssignStmt, *ast.DeclStmt:
+				// html := table[str[i]]  /  var html = table[str[i]]
+				var lhs *ast.Ident
+				var rhs ast.Expr
+				switch d := s.(type) {
+				case *ast.AssignStmt:
+					if len(d.Lhs) >= 1 && len(d.Rhs) == 1 {
+						lhs, _ = d.Lhs[0].(*ast.Ident)
+						rhs = d.Rhs[0]
+					}
+				case *ast.DeclStmt:
+					if gd, ok := d.Decl.(*ast.GenDecl); ok && len(gd.Specs) == 1 {
+						if vs, ok := gd.Specs[0].(*ast.ValueSpec); ok && len(vs.Names) >= 1 && len(vs.Values) == 1 {
+							lhs, rhs = vs.Names[0], vs.Values[0]
 						}
 					}
 				}
+				if lhs == nil || rhs == nil {
+					return true
+				}
+				ix, ok := ast.Unparen(rhs).(*ast.IndexExpr)
+				if !ok {
+					return true
+				}
+				tbl, tpos := constIndexTable(c, info, ix.X)
+				if tbl == nil {
+					return true
+				}
+				if _, ok := tbl['<']; !ok {
+					return true
+				}
+				cand := &escModel{node: s, at: tpos, entries: tbl}
+				// the skip: if html == nil { continue }  /  if !ok { continue }
+				lobj := info.Defs[lhs]
+				if lobj == nil {
+					lobj = info.Uses[lhs]
+				}
+				ast.Inspect(fd.Body, func(y ast.Node) bool {
+					ifs, ok := y.(*ast.IfStmt)
+					if !ok || len(ifs.Body.List) != 1 {
+						return true
+					}
+					br, ok := ifs.Body.List[0].(*ast.BranchStmt)
+					if !ok || br.Tok != token.CONTINUE {
+						return true
+					}
+					tests := false
+					ast.Inspect(ifs.Cond, func(z ast.Node) bool {
+						if id, ok := z.(*ast.Ident); ok && info.Uses[id] != nil {
+							if info.Uses[id] == lobj {
+								tests = true
+							}
+							if as, ok := s.(*ast.AssignStmt); ok && len(as.Lhs) == 2 {
+								if okid, ok := as.Lhs[1].(*ast.Ident); ok && info.Defs[okid] == info.Uses[id] {
+									tests = true
+								}
+							}
+						}
+						return true
+					})
+					if tests {
+						cand.hasDefault, cand.defaultSkips, cand.defaultPos = true, true, ifs.Pos()
+					}
+					return true
+				})
+				m = cand
 			}
 			return true
 		})
-		if sw != nil {
-			return fd, sw
+		if m != nil {
+			return fd, m
 		}
 	}
-	c.fatalf("anchor: soyhtml's HTML escaper (io.Writer parameter + switch with a '<' case) not found")
+	c.fatalf("anchor: soyhtml's HTML escaper (io.Writer parameter + a switch arm or table entry for '<') not found")
 	return nil, nil
+}
+
+// constIndexTable: x names a package-level array, slice or map variable initialised by a composite literal
+// keyed by character constants; returns character -> replacement (resolved with constBytes).
+func constIndexTable(c *Ctx, info *types.Info, x ast.Expr) (map[rune]escEntry, token.Pos) {
+	id, ok := ast.Unparen(x).(*ast.Ident)
+	if !ok {
+		return nil, token.NoPos
+	}
+	v, ok := info.Uses[id].(*types.Var)
+	if !ok || v.Pkg() == nil || v.Parent() != v.Pkg().Scope() {
+		return nil, token.NoPos
+	}
+	for _, p := range c.Pkgs {
+		if p.Types != v.Pkg() {
+			continue
+		}
+		for _, f := range p.Syntax {
+			for _, d := range f.Decls {
+				gd, ok := d.(*ast.GenDecl)
+				if !ok {
+					continue
+				}
+				for _, sp := range gd.Specs {
+					vs, ok := sp.(*ast.ValueSpec)
+					if !ok {
+						continue
+					}
+					for i, nm := range vs.Names {
+						if p.TypesInfo.Defs[nm] != v || i >= len(vs.Values) {
+							continue
+						}
+						cl, ok := ast.Unparen(vs.Values[i]).(*ast.CompositeLit)
+						if !ok {
+							return nil, token.NoPos
+						}
+						out := map[rune]escEntry{}
+						for _, el := range cl.Elts {
+							kv, ok := el.(*ast.KeyValueExpr)
+							if !ok {
+								return nil, token.NoPos
+							}
+							ktv, ok := p.TypesInfo.Types[kv.Key]
+							if !ok || ktv.Value == nil || ktv.Value.Kind() != constant.Int {
+								return nil, token.NoPos
+							}
+							k, _ := constant.Int64Val(ktv.Value)
+							ent := escEntry{pos: kv.Pos()}
+							ent.repl, ent.found = constBytes(c, p.TypesInfo, kv.Value)
+							out[rune(k)] = ent
+						}
+						return out, cl.Pos()
+					}
+				}
+			}
+		}
+	}
+	return nil, token.NoPos
 }
 
 // printHypo fixes the autoescape mode and the CancelAutoescape flag of every directive.
@@ -365,52 +544,27 @@ func ruleR03c(c *Ctx) {
 		return
 	}
 	c.seen(c.declKey("soyhtml", fd))
-	info := p.TypesInfo
+	_ = p.TypesInfo
 	need := map[rune]bool{'"': true, '\'': true, '&': true, '<': true, '>': true}
 	got := map[rune]bool{}
-	hasDefault := false
-	for _, cs := range sw.Body.List {
-		cc := cs.(*ast.CaseClause)
-		if cc.List == nil {
-			hasDefault = true
-			// the default arm must not write or replace: it only skips
-			skips := len(cc.Body) == 1
-			if skips {
-				if br, ok := cc.Body[0].(*ast.BranchStmt); !ok || br.Tok != token.CONTINUE {
-					skips = false
-				}
-			}
-			c.check(skips, "R03c", "soyhtml.htmlEscaper default", cc.Pos(), "other bytes are left to be copied unchanged", "the default arm of the escaper does more than skip: non-special bytes are not copied verbatim")
-			continue
-		}
-		for _, e := range cc.List {
-			tv := info.Types[e]
-			if tv.Value == nil {
-				continue
-			}
-			v, _ := constant.Int64Val(tv.Value)
-			ch := rune(v)
-			got[ch] = true
-			// replacement: the byte slice assigned in this arm
-			repl, found := "", false
-			for _, s := range cc.Body {
-				as, ok := s.(*ast.AssignStmt)
-				if !ok || len(as.Rhs) != 1 {
-					continue
-				}
-				repl, found = constBytes(c, info, as.Rhs[0])
-			}
-			key := fmt.Sprintf("soyhtml.htmlEscaper case %q", ch)
-			switch {
-			case !found:
-				c.unk("R03c", key, cc.Pos(), "replacement text not resolved to a constant")
-			case html.UnescapeString(repl) != string(ch):
-				c.bad("R03c", key, cc.Pos(), fmt.Sprintf("replacement %q decodes to %q, not %q", repl, html.UnescapeString(repl), string(ch)))
-			case strings.ContainsAny(repl, "\"'<>") || strings.Count(repl, "&") != 1 || !strings.HasPrefix(repl, "&"):
-				c.bad("R03c", key, cc.Pos(), fmt.Sprintf("replacement %q itself contains a raw special character", repl))
-			default:
-				c.ok("R03c", key, cc.Pos(), fmt.Sprintf("%q -> %q, a character reference that decodes back and contains no raw special", string(ch), repl))
-			}
+	hasDefault := sw.hasDefault
+	if sw.hasDefault {
+		c.check(sw.defaultSkips, "R03c", "soyhtml.htmlEscaper default", sw.defaultPos, "other bytes are left to be copied unchanged", "the default arm of the escaper does more than skip: non-special bytes are not copied verbatim")
+	}
+	for _, ch := range sw.specials() {
+		ent := sw.entries[ch]
+		got[ch] = true
+		repl, found := ent.repl, ent.found
+		key := fmt.Sprintf("soyhtml.htmlEscaper case %q", ch)
+		switch {
+		case !found:
+			c.unk("R03c", key, ent.pos, "replacement text not resolved to a constant")
+		case html.UnescapeString(repl) != string(ch):
+			c.bad("R03c", key, ent.pos, fmt.Sprintf("replacement %q decodes to %q, not %q", repl, html.UnescapeString(repl), string(ch)))
+		case strings.ContainsAny(repl, "\"'<>") || strings.Count(repl, "&") != 1 || !strings.HasPrefix(repl, "&"):
+			c.bad("R03c", key, ent.pos, fmt.Sprintf("replacement %q itself contains a raw special character", repl))
+		default:
+			c.ok("R03c", key, ent.pos, fmt.Sprintf("%q -> %q, a character reference that decodes back and contains no raw special", string(ch), repl))
 		}
 	}
 	for ch := range need {
@@ -453,7 +607,10 @@ func (h attrHypo) expr(ev *evaluator, e ast.Expr, info *types.Info) (aval, bool)
 	if ix, ok := e.(*ast.IndexExpr); ok {
 		if tv, ok := info.Types[ix.X]; ok {
 			if _, ok := tv.Type.Underlying().(*types.Map); ok {
-				return constVal(constant.MakeString(h.val)), true
+				// the attribute map handed in, not a package-level table of the parser
+				if _, _, tbl := ev.c.constTable(ix.X, info); !tbl {
+					return constVal(constant.MakeString(h.val)), true
+				}
 			}
 		}
 	}
@@ -726,21 +883,13 @@ func ruleR03g(c *Ctx) {
 		c.fatalf("anchor: the escaper has no string parameter")
 		return
 	}
-	specials := ""
-	for _, cs := range sw.Body.List {
-		for _, e := range cs.(*ast.CaseClause).List {
-			if tv := info.Types[e]; tv.Value != nil {
-				v, _ := constant.Int64Val(tv.Value)
-				specials += string(rune(v))
-			}
-		}
-	}
+	specials := sw.specials()
 	// the scan loop: the for statement containing the switch; its counter; the cursor (assigned 0 and counter+1 only)
 	var loop *ast.ForStmt
 	ast.Inspect(fd.Body, func(x ast.Node) bool {
 		if fs, ok := x.(*ast.ForStmt); ok {
 			ast.Inspect(fs.Body, func(y ast.Node) bool {
-				if y == ast.Node(sw) {
+				if y == sw.node {
 					loop = fs
 				}
 				return true
